@@ -26,6 +26,10 @@ class BoomT(Boom, TypeError):
     """a failing comparison whose exception happens to be a TypeError"""
 
 
+class BoomK(Boom, KeyError):
+    """a failing comparison whose exception happens to be a KeyError (e.g. a POSKeyError while loading the other key)"""
+
+
 class TV:
     """value object whose instances are counted (leak detection)"""
     __slots__ = ("n",)
@@ -210,7 +214,7 @@ def run(ctx):
             live0 = CK.live + TV.live       # the keys and values of 'base' only
             cand_keys = sorted(set(rng.sample(present, min(3, len(present))) + [rng.randrange(-1, 2 * u + 1) for _ in range(2)]))
             for k in cand_keys:
-                ops = ["get", "set", "del", "range", "minkey"] + ([] if setlike else ["pop"])
+                ops = ["get", "set", "del", "range", "minkey"] + (["discard"] if setlike else ["pop"])
                 for op in ops:
                     def do(t, key):
                         if op == "get":
@@ -225,6 +229,8 @@ def run(ctx):
                             return t.minKey(key)
                         if op == "pop":
                             return t.pop(key, None)
+                        if op == "discard":
+                            return t.discard(key)
                     # ---- reference run: count comparisons, record probes, result
                     t = build(cls, setlike, keys_in, keys_del, val)
                     key = CK(k)
@@ -247,6 +253,9 @@ def run(ctx):
                         key = CK(k)
                         CK.count, CK.fail_at, CK.probes, CK.target = 0, n, None, None
                         CK.exc = BoomT if (kind in ("BTree", "TreeSet") and op in ("get", "range", "minkey") and n % 2 == 0) else Boom
+                        if op == "discard" and impl == "Py" and n % 2 == 1:
+                            # (the C discard() cannot tell a KeyError raised by a comparison from "key not found": by design)
+                            CK.exc = BoomK
                         outcome = None
                         try:
                             do(t, key)
